@@ -120,9 +120,9 @@ def twoStepFresnel(Uin, wvl, d1, d2, z):
     m = float(d2)/d1
 
     #intermediate plane
-    try:
+    if m != 1:
         Dz1  = z / (1-m) #propagation distance
-    except ZeroDivisionError:
+    else:
         Dz1 = z / (1+m)
     d1a = wvl * abs(Dz1) / (N*d1) #coordinates
     x1a, y1a = numpy.meshgrid( numpy.arange( -N/2.,N/2.) * d1a,
